@@ -1,0 +1,136 @@
+//! Verification hooks (only compiled with `--cfg loom_verif`).
+//!
+//! Nothing in here changes how a model is explored. The hooks only copy
+//! exploration state out so that an external harness can look at it:
+//!
+//! * an iteration observer that receives the executed decision path at the end
+//!   of every iteration (also when the iteration panics), and
+//! * a fingerprint of the execution state, callable from inside a model.
+
+use crate::rt::{self, Path, MAX_ATOMIC_HISTORY, MAX_THREADS};
+
+use std::cell::RefCell;
+
+/// Kind of a branch point in the decision path.
+#[derive(Debug, Clone, Copy, PartialEq, Eq)]
+pub enum BranchKind {
+    /// A scheduling decision
+    Schedule,
+    /// Which store an atomic load / rmw reads from
+    Load,
+    /// Whether a `Notify::wait` returns spuriously
+    Spurious,
+}
+
+/// Thread states of a schedule branch, as plain numbers.
+pub mod thread_state {
+    /// The thread cannot run
+    pub const DISABLED: u8 = 0;
+    /// The thread could run but is not (yet) scheduled for exploration
+    pub const SKIP: u8 = 1;
+    /// The thread has yielded
+    pub const YIELD: u8 = 2;
+    /// The thread is queued for exploration at this branch
+    pub const PENDING: u8 = 3;
+    /// The thread was chosen in this iteration
+    pub const ACTIVE: u8 = 4;
+    /// The thread was chosen in an earlier iteration
+    pub const VISITED: u8 = 5;
+}
+
+/// One entry of the decision path, copied out of the runtime.
+#[derive(Debug, Clone, PartialEq, Eq)]
+pub struct Branch {
+    /// What kind of decision this is
+    pub kind: BranchKind,
+    /// The alternative taken: thread index, position in `values`, or 0/1 for
+    /// spurious. `u8::MAX` for a schedule branch without an active thread.
+    pub chosen: u8,
+    /// Number of alternatives of a load branch (`0` otherwise)
+    pub len: u8,
+    /// Candidate store indices of a load branch
+    pub values: [u8; MAX_ATOMIC_HISTORY],
+    /// Whether exploration was enabled when the branch was created
+    pub exploring: bool,
+    /// Thread states of a schedule branch (see [`thread_state`])
+    pub threads: [u8; MAX_THREADS],
+    /// `initial_active` field of a schedule branch
+    pub initial_active: Option<u8>,
+    /// `preemptions` field of a schedule branch (pre-emptions before it)
+    pub preemptions: u8,
+}
+
+/// What the observer is given at the end of every iteration.
+#[derive(Debug, Clone)]
+pub struct Iteration {
+    /// 1-based iteration counter of `Builder::check`
+    pub index: usize,
+    /// The decision path as it stands at the end of the iteration
+    pub branches: Vec<Branch>,
+    /// Position reached in the path
+    pub pos: usize,
+    /// `true` if the iteration ended by unwinding
+    pub panicked: bool,
+}
+
+type Observer = Box<dyn FnMut(Iteration)>;
+
+thread_local! {
+    static OBSERVER: RefCell<Option<Observer>> = RefCell::new(None);
+}
+
+/// Install (or remove) the iteration observer of the calling OS thread.
+pub fn set_observer(observer: Option<Box<dyn FnMut(Iteration)>>) {
+    OBSERVER.with(|o| *o.borrow_mut() = observer);
+}
+
+/// Fingerprint of the current execution state. Must be called inside a model.
+///
+/// `[objects, threads, active thread, lazy statics, raw allocations,
+/// registered arcs, seq-cst clock is zero]`
+pub fn fingerprint() -> [usize; 7] {
+    rt::execution(|execution| {
+        [
+            execution.objects.len(),
+            execution.threads.iter().len(),
+            execution.threads.active_id().as_usize(),
+            execution.lazy_statics.verif_len(),
+            execution.raw_allocations.len(),
+            execution.arc_objs.len(),
+            (execution.threads.seq_cst_causality == rt::VersionVec::new()) as usize,
+        ]
+    })
+}
+
+pub(crate) fn record(path: &Path, index: usize, panicked: bool) {
+    OBSERVER.with(|o| {
+        // `try_borrow_mut`: never panic from here (may run during unwinding)
+        if let Ok(mut o) = o.try_borrow_mut() {
+            if let Some(f) = o.as_mut() {
+                let (branches, pos) = path.verif_snapshot();
+                f(Iteration {
+                    index,
+                    branches,
+                    pos,
+                    panicked,
+                });
+            }
+        }
+    });
+}
+
+/// Reports the iteration if it is dropped while unwinding.
+pub(crate) struct IterGuard {
+    pub(crate) path: *const Path,
+    pub(crate) index: usize,
+}
+
+impl Drop for IterGuard {
+    fn drop(&mut self) {
+        if std::thread::panicking() {
+            // The pointer refers to `execution.path` of `Builder::check`, which
+            // outlives the guard.
+            record(unsafe { &*self.path }, self.index, true);
+        }
+    }
+}
